@@ -462,6 +462,8 @@ static void do_tight(char *line) {
     unsigned char *arg; size_t alen = unhex(tok[k + 1], &arg); const char *kind = tok[k];
     printf("m %s\n", kind); fflush(stdout);
     if (cl->sock == RFB_INVALID_SOCKET) { puts("dead"); continue; }
+    /* never write outside the sandbox, whatever root the library ended up with */
+    if (strncmp(GetFtpRoot(), sb, strlen(sb)) != 0 && (!strcmp(kind, "mkdir") || !strcmp(kind, "upload"))) { puts("skipped"); continue; }
     memset(m, 0, sizeof m);
     if (!strcmp(kind, "list")) { m[0] = 130; vs_put16(m + 2, (unsigned)alen); vs_write(tpeer, m, 4); vs_write(tpeer, arg, alen); }
     else if (!strcmp(kind, "mkdir")) { m[0] = 136; vs_put16(m + 2, (unsigned)alen); vs_write(tpeer, m, 4); vs_write(tpeer, arg, alen); }
